@@ -22,7 +22,7 @@ def shards_for(run: Run) -> list[dict]:
                 "prop": PROP, "judges": JUDGES, "modes": MODES, "source": "random", "profile": "trivia",
                 "seed": seed_int(PROP, run.seed, j), "count": nrand, "cap": run.pick(260, 600), "maxlen": run.pick(4, 5),
                 "extra_alpha": " #", "sample_at": 300 * j, "profile_overrides": {"trivia_explicit": j % 2 == 0, "trivia_refs": j % 4 in (1, 2)},
-                "rename": j % 4 >= 2,
+                "rename": j % 4 >= 2, "long_inputs": 2 if j % 4 == 0 else 0,
             }
         )
     idx = list(range(G.matrix_size()))
